@@ -1,12 +1,13 @@
 #!/bin/bash
-# durgen.sh <num> <steps> <seed> <outfile>: TLC simulation of DurableGen.tla -> one scenario (JSON) per line
+# durgen.sh <num> <steps> <seed> <outfile> [cold]: TLC simulation of DurableGen.tla -> one scenario (JSON) per line
+# (cold = TRUE: the behaviours begin before the server has ever been started)
 V=${VERIF_HOME:-/verif}
 OUT=$(cd "$(dirname "$4")" && pwd)/$(basename "$4")
 D=$(mktemp -d $V/run/dgen.XXXX)
-printf 'SPECIFICATION GenSpec\nCONSTANTS\n  Promises = {"a", "b"}\n  MaxSteps = %s\nINVARIANTS\n  Emit\n  TypeOK\n' "$2" > $D/gen.cfg
+printf 'SPECIFICATION GenSpec\nCONSTANTS\n  Promises = {"a", "b"}\n  MaxSteps = %s\n  Cold = %s\nINVARIANTS\n  Emit\n  TypeOK\n' "$2" "${5:-FALSE}" > $D/gen.cfg
 cd $V/spec && timeout 900 java -Xmx4g -Xss512m -Djava.io.tmpdir=$D -cp /opt/veriftools/tla/tla2tools.jar:/opt/veriftools/tla/CommunityModules-deps.jar tlc2.TLC -noGenerateSpecTE -deadlock -workers 1 -simulate num=$1 -depth $(( $2 + 1 )) -seed $3 -metadir $D/md -config $D/gen.cfg DurableGen.tla > $D/out.txt 2>&1
 if grep -q "^Error" $D/out.txt; then grep -A5 "^Error" $D/out.txt | head -20 >&2; exit 2; fi
-grep DURGEN $D/out.txt | SEED=$3 python3 -c "
+grep DURGEN $D/out.txt | SEED=$3 PFX=$([ "${5:-FALSE}" = TRUE ] && echo c || echo d) python3 -c "
 import sys,re,json,os,random
 rnd=random.Random(int(os.environ['SEED']))
 groups={}
@@ -20,7 +21,7 @@ for l in sys.stdin:
 k=0
 for key,docs in groups.items():
     k+=1
-    d=rnd.choice(docs); d['sid']='d%d'%k; d['args']=[]
+    d=rnd.choice(docs); d['sid']=os.environ.get('PFX','d')+'%d'%k; d['args']=[]
     print(json.dumps(d))
-" > "$OUT"
+" >> "$OUT"
 rm -rf $D
